@@ -84,7 +84,7 @@ def run(res: Results, idx: Index, tier: str) -> None:
     res.rule("R-C16a", "a failed plugin lookup raises", floor=1)
     res.rule("R-C16b", "broad non-re-raising handlers around emitting code fall through to another lowering, never to a plain return", floor=1)
     res.rule("R-C16c", "optimizer failures re-raise under the strict switch and are logged otherwise", floor=3)
-    res.rule("R-C16d", "dimension symbols without a recorded origin raise", floor=1)
+    res.rule("R-C16d", "unsupported constructs raise before emission: dimension symbols without origin, reverse scan / N-way switch / bad trip counts, unknown dimension operations", floor=5)
     res.assumptions += ["validity of the model when an optimizer pass aborts mid-rewrite (crash points inside a pass) is not decided"]
 
     # ---- R-C16a
@@ -174,6 +174,22 @@ def run(res: Results, idx: Index, tier: str) -> None:
         res.ok("R-C16d", f"jax2onnx/converter/lower_dimexpr.py:{guards[0].lineno}", key, "a dimension symbol without origin raises before any node is emitted", f.qualname)
     else:
         res.violation("R-C16d", f"jax2onnx/converter/lower_dimexpr.py:{f.node.lineno}", key, "a dimension symbol without a recorded origin does not raise before emission", f.qualname)
+
+
+    # the rejections listed in the docstring are decided by their own properties' rules; the same instances are
+    # decided here as well, so that an unsupported construct that stops raising is reported as a loud-failure defect
+    from . import c04, c06
+    n_x = 0
+    for mod, prop, rid in ((c06, "C06", "R-C06b"), (c04, "C04", "R-C04b")):
+        sub = Results(prop, tier)
+        mod.run(sub, idx, tier)
+        for inst in sub.instances:
+            if inst.rule == rid and ("raise" in inst.detail or "reject" in inst.detail or inst.status != "OK"):
+                n_x += 1
+                res.add("R-C16d", inst.status, inst.site, f"{rid}::{inst.key}", f"[{prop} {rid}] {inst.detail}", inst.func)
+    res.analysed["cross_referenced_rejections"] = n_x
+    if n_x < 4:
+        raise AnalysisError(f"only {n_x} rejection instances cross-referenced from C06 R-C06b / C04 R-C04b (expected >= 4)")
 
 
 def _parents(n: ast.AST):
